@@ -1360,6 +1360,15 @@ pub fn check_validating(ctx: &mut Ctx, input: &[u8], paths: &[Vec<Seg>], with_it
             ctx.state();
             ctx.call();
             let name = GET_EPS[i];
+            ctx.tr(|t| match &r {
+                Ok(Some(GetObs::Span(a, b, _))) => {
+                    t.u64(*a as u64);
+                    t.u64(*b as u64)
+                }
+                Ok(Some(GetObs::Detached(x))) => t.bytes(x),
+                Ok(Some(GetObs::Err { .. })) => t.bytes(b"E"),
+                _ => t.bytes(b"?"),
+            });
             match r {
                 Err(p) => ctx.violation(&format!("panic/{name}"), json!({"entry": name, "input": show(input), "path": path_str(path), "panic": p})),
                 Ok(None) => {}
